@@ -1631,5 +1631,6 @@ pub fn gen(tier: &str, seed: u64) -> Vec<String> {
         let t = fe_random(&mut r);
         out.push(case_line('s', "fe:rnd", &t, &[]));
     }
+    out.extend(crate::c03cov::gen_extra(tier, seed));
     out
 }
